@@ -95,5 +95,5 @@ def phases(tier):
   return [
       {'name': 'shipped', 'kind': 'hyp',
        'strategy': lambda: engine.cases(model_kw=kw, recipe_kind='shipped'),
-       'run': check_case, 'examples': int((60000 if big else 3000) * k)},
+       'run': check_case, 'examples': int((180000 if big else 3000) * k)},
   ]
